@@ -325,9 +325,10 @@ impl Cred {
             Some(true) => mi == 0 && sha == 1,
         };
         if !ok {
+            // also C13's business: "then the credential attributes the mechanism requires"
             self.v(
                 ctx,
-                M_C07,
+                M_C07 | M_C13,
                 &format!("c07:integrity-set:{}", match self.agreed {
                     None => "none-agreed",
                     Some(false) => "sha1-agreed",
